@@ -29,6 +29,21 @@ func c18table(id int, cods []string, counts []int) codon.Table {
 	return t.OptimizeTable(seqForCounts(cnt))
 }
 
+// c18reversed: the same table with its amino acids and each amino acid's codons listed in reverse order.
+func c18reversed(t codon.Table) codon.Table {
+	c := deepCopyTable(t)
+	for i, j := 0, len(c.AminoAcids)-1; i < j; i, j = i+1, j-1 {
+		c.AminoAcids[i], c.AminoAcids[j] = c.AminoAcids[j], c.AminoAcids[i]
+	}
+	for k := range c.AminoAcids {
+		cs := c.AminoAcids[k].Codons
+		for i, j := 0, len(cs)-1; i < j; i, j = i+1, j-1 {
+			cs[i], cs[j] = cs[j], cs[i]
+		}
+	}
+	return c
+}
+
 func c18vectors(k int, vals []int) [][]int {
 	var out [][]int
 	idx := make([]int, k)
@@ -142,6 +157,11 @@ func c18units(tier string) []mc.Unit {
 						ta, va := tabs[ai], views[ai]
 						for bi := range vecs {
 							tb, vb := tabs[bi], views[bi]
+							if (ai+bi)%2 == 1 {
+								// the order of amino acids and of codons inside a table is not part of the statement:
+								// the same second table, listed the other way round
+								tb = c18reversed(tb)
+							}
 							cas := fmt.Sprintf("code %d %s counts %v and %v", id, tg.letter, vecs[ai], vecs[bi])
 							// --- add
 							var sum codon.Table
